@@ -1327,6 +1327,7 @@ class Interp:
         d.obj.extra_unknown = True
         d.obj.elem = vals[0] if vals else None
         d.obj.comp_node = node
+        d.obj.comp_src = getattr(self, "_last_comp_src", None)  # what the entries were made from (one iterable, no filter)
         return d
 
     # ------------------------------------------------------------------ calls
